@@ -129,12 +129,18 @@ TDeliver ==
 
 TWelcome ==
     /\ R.op = "Welcome"
-    /\ CASE R.what = "process" -> ProcessWelcome(R.c, R.w) /\ (V("res") => Chk("res", R.c, hist'.lastRes = R.res, hist'.lastRes))
+    /\ CASE R.what = "process" -> ProcessWelcome(R.c, R.w, R.x) /\ (V("res") => Chk("res", R.c, hist'.lastRes = R.res, hist'.lastRes))
          [] R.what = "accept"  -> IF R.res = "Ok" THEN AcceptWelcome(R.c, R.w)
                                   ELSE ~ENABLED AcceptWelcome(R.c, R.w) /\ UNCHANGED vars
          [] R.what = "decline" -> IF R.res = "Ok" THEN DeclineWelcome(R.c, R.w)
                                   ELSE ~ENABLED DeclineWelcome(R.c, R.w) /\ UNCHANGED vars
     /\ Post1
+
+\* a no-op line that only compares projections (end of a directed scenario)
+TSnapshot ==
+    /\ R.op = "Snapshot"
+    /\ UNCHANGED vars
+    /\ \A i \in DOMAIN R.posts : PostOK(cl', ev', ginfo', proc', msgs', R.posts[i].c, R.posts[i].g, R.posts[i].post)
 
 TRestart ==
     /\ R.op = "Restart"
@@ -151,7 +157,7 @@ TraceInit == Init /\ l = 2
 TraceNext ==
     /\ l <= Len(Rec)
     /\ l' = l + 1
-    /\ \/ TMeta \/ TCreate \/ TCommit \/ TMerge \/ TClear \/ TSend \/ TLeave \/ TDeliver \/ TQuiesce \/ TWelcome \/ TRestart
+    /\ \/ TMeta \/ TCreate \/ TCommit \/ TMerge \/ TClear \/ TSend \/ TLeave \/ TDeliver \/ TQuiesce \/ TWelcome \/ TRestart \/ TSnapshot
 
 \* property invariants, evaluated by TLC in every state of every real trace
 InvC01 == hist.q => C01_Excused
@@ -163,6 +169,17 @@ ActC03 == [][\A c \in Clients : (R.op \in {"Deliver", "Send"} /\ R.c = c /\ cl[c
                                   => (R.res \notin {"App", "Ok"} /\ msgs'[c] = msgs[c])]_tvars
 InvC08 == C08_Mirror
 InvC18 == C18_Pointer
+InvC16 == C16_ConsentGated
+\* no invitation modifies or disables a group in which the user is already an active member
+ActC16 == [][\A c \in Clients, g \in Groups :
+               (R.op = "Welcome" /\ R.c = c /\ R.g = g /\ cl[c][g].rec.st = "active" /\ cl[c][g].mls = "ok")
+               => \/ GroupObs(c, g)' = GroupObs(c, g)
+                  \/ /\ "WelcomeOverwritesActiveGroup" \in Dev
+                     /\ PrintT(<<"KNOWN-FINDING", "C16", "WelcomeOverwritesActiveGroup", c, g>>)]_tvars
+\* accepting puts the joiner in exactly the inviter's post-commit state with a pending obligation to rotate its key
+ActC16Join == [][\A c \in Clients : (R.op = "Welcome" /\ R.c = c /\ R.what = "accept" /\ R.res = "Ok")
+               => (cl'[c][R.g].chain = wl[R.w].chain /\ cl'[c][R.g].mls = "ok" /\ cl'[c][R.g].rec.su
+                   /\ cl'[c][R.g].rec.st = "active")]_tvars
 \* action properties on the real trace
 ActC02 == [][C02_ContentImmutable \/ R.op = "Reset"]_tvars
 ObsSame(c) == ObsOf(c)' = ObsOf(c)
